@@ -489,7 +489,39 @@ def agg_narrow(r):
     return gdefs, mono(x), g + "".join(ops), m + "".join(ops), ["narrow<%s>" % x]
 
 
-AGGS = [("narrow", agg_narrow), ("enumfn", agg_enum_in_fn), ("holder", agg_holder), ("ctor", agg_ctor), ("enum", agg_enum), ("structfn", agg_struct_in_fn)]
+def agg_implstatic(r):
+    """static locals in methods of a generic impl, and impl-level statics: one copy per instantiation, shared by all objects of
+    that instantiation"""
+    gdefs = ("interface Cnt<T> {\n    int bump();\n    int other();\n    T keep(T v);\n};\n"
+             "struct Cell<T> {\n    T v;\n};\n"
+             "impl Cnt<T> for Cell<T> {\n    int bump() {\n        static int n = 0;\n        n = n + 1;\n        return n;\n    }\n"
+             "    int other() {\n        static int n = 100;\n        n = n + 10;\n        return n;\n    }\n"
+             "    T keep(T v) {\n        static T last = 0;\n        T old = last;\n        last = v;\n        return old;\n    }\n};\n")
+
+    def mono(x):
+        return (gdefs.replace("Cnt<T>", M("Cnt", [x])).replace("Cell<T>", M("Cell", [x]))
+                .replace("T ", x + " ").replace("(T ", "(" + x + " "))
+    dom = ["tiny", "short", "int", "long"]
+    types = [r.choice(dom) for _ in range(r.range(2, 4))]
+    g, m = [], []
+    for k, x in enumerate(types):
+        g.append("    Cell<%s> c%d;\n    c%d.v = %d;\n" % (x, k, k, k))
+        m.append("    %s c%d;\n    c%d.v = %d;\n" % (M("Cell", [x]), k, k, k))
+    ops = []
+    for _ in range(r.range(4, 9)):
+        k = r.below(len(types))
+        c = r.below(3)
+        if c == 0:
+            ops.append("    println(\"b\", %d, c%d.bump());\n" % (k, k))
+        elif c == 1:
+            ops.append("    println(\"o\", %d, c%d.other());\n" % (k, k))
+        else:
+            ops.append("    println(\"k\", %d, c%d.keep(%d));\n" % (k, k, r.range(1, 99)))
+    return gdefs, "".join(mono(x) for x in dict.fromkeys(types)), "".join(g) + "".join(ops), "".join(m) + "".join(ops), \
+        ["implstatic<%s>" % x for x in types]
+
+
+AGGS = [("implstatic", agg_implstatic), ("narrow", agg_narrow), ("enumfn", agg_enum_in_fn), ("holder", agg_holder), ("ctor", agg_ctor), ("enum", agg_enum), ("structfn", agg_struct_in_fn)]
 
 
 def aggregate_case(r):
